@@ -90,11 +90,11 @@ func idxKey(field string, env *idxEnv) func(interface{}) []byte {
 				time.Sleep(time.Duration(d) * time.Microsecond)
 			}
 		}
-		s, ok := valKey(v, field)
+		s, ok := idxKeyOf(v, field)
 		if !ok {
 			return nil
 		}
-		return []byte(s)
+		return []byte(s) // empty but non-nil for the empty key
 	}
 }
 
@@ -181,7 +181,7 @@ func refQuery(model map[string]interface{}, q idxQuery) []string {
 	type ent struct{ key, id string }
 	var es []ent
 	for id, v := range model {
-		k, ok := valKey(v, field)
+		k, ok := idxKeyOf(v, field)
 		if !ok {
 			continue
 		}
@@ -228,7 +228,7 @@ func refQuery(model map[string]interface{}, q idxQuery) []string {
 // idxTasksEnqueued counts successful mutations = index tasks enqueued (process wide).
 var idxTasksEnqueued int64
 
-var idxKeys = []string{"a", "ab", "abc", "b", "ba", "a:b", "z", "aa", "Ab", "a b", "ab~", "abcd", "k\x01", "é"}
+var idxKeys = []string{"a", "ab", "abc", "b", "ba", emptyKeyMarker, "a:b", "z", "aa", "Ab", "a b", "ab~", "abcd", "k\x01", "é", emptyKeyMarker}
 
 type idxMut struct {
 	Op  string `json:"op"`
